@@ -4,6 +4,7 @@ import (
 	"bytes"
 	"fmt"
 	"io"
+	"time"
 
 	ws "github.com/gorilla/websocket"
 
@@ -592,6 +593,16 @@ func c04Random(ctx *core.Ctx, out *core.Out) {
 	c := ws.VerifNewConn(nc, server, ex.RB, 4096, nil, nil, comp)
 	rd := &Reader{C: c}
 	rd.InstallRecordingHandlers()
+	// history: the application may already have sent its own close frame and go on
+	// reading (the closing handshake is not finished until the peer's close arrives)
+	localClose := r.Chance(1, 4)
+	desc["application_sent_close_first"] = localClose
+	if localClose {
+		if err := c.WriteControl(ws.CloseMessage, ws.FormatCloseMessage(1000, ""), time.Time{}); err != nil {
+			out.Inconcl("could not send the local close: " + err.Error())
+			return
+		}
+	}
 	var termErr error
 	delivered := 0
 	for i := 0; i < len(exp)+4; i++ {
@@ -653,11 +664,23 @@ func c04Random(ctx *core.Ctx, out *core.Out) {
 	for _, w := range wf {
 		if w.Op == 8 {
 			closes++
-			if code, _, _ := wire.CloseBody(w.Payload); code != 1002 {
+			code, _, _ := wire.CloseBody(w.Payload)
+			if localClose && closes == 1 && code == 1000 {
+				continue
+			}
+			if code != 1002 {
 				fail("close-status", fmt.Sprintf("close sent with status %d, expected 1002", code))
 				return
 			}
 		}
+	}
+	if localClose {
+		// the 1002 cannot be sent any more; nothing may follow the application's close (C09)
+		out.Count("violations_after_local_close", 1)
+		if werr != nil || len(rest) > 0 || closes != 1 {
+			fail("frames-after-local-close", fmt.Sprintf("%d close frames on the wire after the application had sent its close", closes))
+		}
+		return
 	}
 	if werr != nil || len(rest) > 0 || closes != 1 {
 		fail("close-1002-missing", fmt.Sprintf("%d close frames written back, expected exactly one with status 1002", closes))
